@@ -59,6 +59,11 @@ func NewSlidingWindowMetric(sampleCount, intervalInMs uint32, real *BucketLeapAr
 func (m *SlidingWindowMetric) getBucketStartRange(timeMs uint64) (start, end uint64) {
 	curBucketStartTime := calculateStartTime(timeMs, m.real.BucketLengthInMs())
 	end = curBucketStartTime
+	if end+uint64(m.real.BucketLengthInMs()) < uint64(m.intervalInMs) {
+		// The window reaches back before time zero: do not let the unsigned subtraction wrap around.
+		start = 0
+		return
+	}
 	start = end - uint64(m.intervalInMs) + uint64(m.real.BucketLengthInMs())
 	return
 }
